@@ -186,15 +186,25 @@ def addrparse_sites(db, rep):
             b'FROM:<"a>b"@x.y> SIZE=1', b'FROM:<>', b'TO:<"\\\r"@x.y>', b'TO:<"a\\"b\\"c d"@x.y>', b'TO:<\\"q@x.y>', b'TO:<"<>"@x.y>', b'FROM:<"a\\\\"@x.y>']
     bad = None
     for arg in args:
-        H = type('AP', (_lt.SAConc, _lt.Conc), {})('addrparse')
+        objs = []
+
+        class AP(_lt.SAConc, _lt.Conc):
+            def prim_stralloc_append(self_, E, x, args):
+                o_ = _lt._one(args[0])
+                if isinstance(o_, tuple) and o_[1] not in objs:
+                    objs.append(o_[1])
+                return _lt.SAConc.prim_stralloc_append(self_, E, x, args)
+        H = AP('addrparse')
         st = {0: fs(('&', 'ARG[0]')), 'G:liphostok': fs(0)}
         st.update(_lt.conc_string_cells('ARG', arg))
         _lt._run_conc(db, rep, prog, fn, st, 'addrparse', H)
         if len(H.ends) != 1:
             raise AnalysisBroken('addrparse(%r): %d ends' % (arg, len(H.ends)))
         end, val, tr = H.ends[0]
-        n_ = _lt.one(end.get('G:addr.len'))
-        got = bytes((_lt.one(end.get('G:addr.s[%d]' % k)) or 0) & 255 for k in range(n_)) if isinstance(n_, int) and 0 <= n_ < 300 else None
+        if len(objs) != 1:
+            raise AnalysisBroken('addrparse(%r): the address is appended to %s' % (arg, objs))
+        n_ = _lt.one(end.get(objs[0] + '.len'))
+        got = bytes((_lt.one(end.get('%s.s[%d]' % (objs[0], k))) or 0) & 255 for k in range(n_)) if isinstance(n_, int) and 0 <= n_ < 300 else None
         want = ref(arg) + b'\0'
         if (got != want or _lt.one(val) != 1) and bad is None:
             bad = 'argument %r: the address taken is %r (result %s); by the quoting rules it is %r - the address the client quoted does not come back' % (arg, got, _lt.one(val), want)
